@@ -138,7 +138,7 @@ class PrefixedNameToken(XPathToken):
         if self.is_spaced():
             self.lbp = self.rbp = 0
         elif self.parser.token.symbol not in ('*', '(name)', 'array') and \
-                (self.parser.token.label not in ('operator', 'symbol') or
+                (self.parser.token.label not in ('operator', 'symbol', 'expression') or
                  self.parser.name_pattern.match(self.parser.token.symbol) is None):
             self.lbp = self.rbp = 0
 
